@@ -175,7 +175,8 @@ def records(ctx, mode, obs):
 
 
 def _sig(mode, fk, r, second, joined):
-    return dict(file='%s.%s' % (mode, fk), strand=r.get('Orientation'), second_pass=second, joined=joined)
+    # no file / mode name in the signature: one root cause must stay one violation class
+    return dict(strand=r.get('Orientation'), second_pass=second, joined=joined)
 
 
 def _locus(second, joined):
@@ -420,6 +421,11 @@ def query_pool():
             pool.append(('indel r%d %s@%d %s' % (ri, d, i, '-' if rev else '+'), q1))
     for ri, s, l, rev, k in ((0, 15, 26, False, 9), (2, 8, 24, True, 10)):
         pool.append(('cut-head r%d' % ri, worlds.apply_edit(win(ri, s, l, rev), ('cut', 'head', k))))
+    # three-part molecules: the middle part is placed in the first pass, both flanks become second-pass fragments of ONE query
+    for t, (ri, ro, rev, la, lc) in enumerate(((0, 1, False, 9, 12), (1, 2, True, 11, 9), (2, 0, False, 10, 10), (0, 0, True, 10, 10))):
+        wa, wb, wc = win(ro, 5 + 3 * t, la, rev), win(ri, 22 + t, 16, rev), win(ro, 40 + t, lc, rev)
+        q3 = worlds.apply_edit(worlds.apply_edit(wa, ('chimera', wb, 31000.0)), ('chimera', wc, 27000.0))
+        pool.append(('chimera3 r%d flanks r%d %s %d+16+%d' % (ri, ro, '-' if rev else '+', la, lc), q3))
     pool.append(('unalignable one-label', [100.0]))
     pool.append(('unalignable two-label', [100.0, 20000.0]))
     pool.append(('unalignable even-spacing', [float(i * 2150) for i in range(12)]))
@@ -433,12 +439,15 @@ def query_sets(n, seed_tag, size=(3, 5)):
     refs, pool = query_pool()
     rnd = random.Random('coma-query-sets/%s' % seed_tag)
     special = [i for i, (nm, _) in enumerate(pool) if nm.startswith(('chimera', 'indel', 'cut'))]
+    triples = [i for i, (nm, _) in enumerate(pool) if nm.startswith('chimera3')]
     plain = [i for i, (nm, _) in enumerate(pool) if nm.startswith('plain')]
     unal = [i for i, (nm, _) in enumerate(pool) if nm.startswith('unalignable')]
     sets = []
     while len(sets) < n:
         k = rnd.randint(size[0], size[1])
         chosen = [special[(len(sets) * 7 + j * 3) % len(special)] for j in range(1 + (k > 3))]
+        if len(sets) % 3 == 0 and triples[len(sets) // 3 % len(triples)] not in chosen:
+            chosen.append(triples[len(sets) // 3 % len(triples)])
         if len(sets) % 4 != 3:
             chosen.append(unal[len(sets) % len(unal)])
         while len(chosen) < k:
